@@ -1032,7 +1032,7 @@ Definition eo_eqb (a b : eval_outcome) : bool :=
   end.
 Definition dqe_eval_check (c : dqe_eval_case) : N :=
   verdict (eo_eqb (eo_of (case_eval false c)) (ec_impl c))
-          (eo_eqb (eo_of (case_eval true c)) (ec_impl c)).
+          (negb (eo_eqb (ec_impl c) EO_panic) && eo_eqb (eo_of (case_eval true c)) (ec_impl c)).
 
 (* (c) numeric arguments of console commands: did the real command parser panic on the digits of [n]? *)
 Record num_case := mk_num_case { nc_kind : num_arg; nc_value : N; nc_impl_panicked : bool }.
